@@ -291,6 +291,36 @@ def work_zoo(chunk, st):
     st.sample({'zoo_peers': list(chunk[:3])}, cap=3)
 
 
+def work_zoo_T(chunk, st):
+    """the JSON document of a -T run (one target) under the options that filter or add text lines: the lists are all there"""
+    from props import zoo
+    for name in chunk:
+        e = zoo.get(name)
+        if e['ssh1']:
+            continue
+        want = {c: [n for n in e['lists'][c] if n != ''] for c in e['lists']}
+        for opts in (['-n', '-j', '-l', 'warn'], ['-n', '-jj', '-l', 'fail'], ['-n', '-j', '-v'], ['-n', '-j', '-b', '-v']):
+            srv = e['make']()
+            res = H.audit(srv, opts=opts + ['--skip-rate-test'], via_targets_file=True)
+            st.execution(res.world, outcome=('zoo-T', res.status, tuple(opts)), root=('zoo-T', name, tuple(opts)), nontrivial=('zoo-T', name, tuple(opts)))
+            d = {'peer': name, 'opts': opts, 'status': res.status}
+            try:
+                doc = json.loads(res.stdout)
+                doc = doc[0] if isinstance(doc, list) and len(doc) == 1 else doc
+            except ValueError:
+                st.violation('multi-target-path:json-unparseable:%s' % ' '.join(o for o in opts if o not in ('-n',)), dict(d, stdout=res.stdout[:200]))
+                continue
+            if not isinstance(doc, dict):
+                st.violation('multi-target-path:json-shape', dict(d, stdout=res.stdout[:200]))
+                continue
+            for c in want:
+                got = [n for n in (report.json_names(doc, c) or []) if n != '']
+                if got != want[c]:
+                    st.violation('multi-target-path:json-names-differ:%s' % ' '.join(o for o in opts if o not in ('-n',)), dict(d, cat=c, reported=got[:8], advertised=want[c][:8]))
+                    break
+    st.sample({'zoo_T': list(chunk[:2])}, cap=2)
+
+
 def _jsonable(case):
     return json.loads(json.dumps(case, default=lambda o: o.decode('latin1') if isinstance(o, bytes) else repr(o)))
 
@@ -323,6 +353,7 @@ def run(tier, seed):
     from props import zoo
     zs = zoo.names(tier)
     par.pmap(work_zoo, zs, stats=st, chunk=6)
+    par.pmap(work_zoo_T, zs[::3], stats=st, chunk=6)
     validated = H.validate_traces(validation_cases(cs, seed, 40 if tier == 'quick' else 200), st)
     return evidence.finish(
         PID, tier, seed, st, t0,
